@@ -449,13 +449,13 @@ theorem phase_run : ∀ (ords : List Nat) (pre : List Ev) {y y' : Sys},
           (fun ev hev => hst ev (List.mem_cons_of_mem _ hev)) hr1
         subst hoj
         refine ⟨g1, g2.trans hsp, g3.trans hse, g4.trans hen, g5.trans hcs, g6.trans hmd, ?_, ?_, ?_, ?_⟩
-        · simp only [ghost, hj, Option.toList_some, List.map_cons, List.map_nil, List.map_append,
+        · simp only [ghost, hj, Option.toList_some, List.map_cons, List.map_nil,
             List.singleton_append]
           rw [g7, hjobs, List.append_assoc]; rfl
-        · simp only [ghost, hj, Option.toList_some, List.map_cons, List.map_nil, List.map_append,
+        · simp only [ghost, hj, Option.toList_some, List.map_cons, List.map_nil,
             List.singleton_append, htag]
           rw [g8]
-        · simp only [ghost, hj, Option.toList_some, List.map_cons, List.map_nil, List.map_append,
+        · simp only [ghost, hj, Option.toList_some, List.map_cons, List.map_nil,
             List.singleton_append]
           rw [g9, hl01, hrec]
         · intro e he
